@@ -1048,14 +1048,15 @@ def run(tier):
 
     reported = False          # a violation that is not a recorded known finding
     seen = set()
+    classes = collections.Counter()
     for key, detail, what in fails:
-        kk = (key.get("kind"), key.get("test"), key.get("why"), key.get("defect"))
-        if kk in seen and len(seen) > 6:
-            continue
+        kk = tuple(sorted((k, str(v)) for k, v in key.items()))
+        cls = (key.get("kind"), key.get("test"), key.get("defect"))
+        if kk in seen or classes[cls] >= 3 or len(seen) >= 12:
+            continue          # the first input of a class is the (smallest, corpus-first) witness; keep its replay file
         seen.add(kk)
+        classes[cls] += 1
         reported |= bool(res.violation(key, detail, what))
-        if len(seen) > 12:
-            break
     if not reported:
         if not b["ok"]:
             vlib.report_broken_build(res, b, None)
